@@ -246,6 +246,7 @@ def r2(cx, rec):
                 released = any(kind in ('dec', 'missing', 'have') and rec_path(F) in idx and p.index(b2) <= p.index(rb) for kind, idx, b2, ish in ev)
                 choked = any(k.endswith(choked_path(F)) and v is True for k, v in at.items())
                 none_known = any(('is_none(%s)' % rec_path(F)) in k and v is True for k, v in at.items()) or \
+                    any(('is_some(%s)' % rec_path(F)) in k and v is False for k, v in at.items()) or \
                     any(k.startswith('discr(%s)' % rec_path(F)) and v == 'None' for k, v in at.items())
                 if pre is None:
                     pre = callers_released(F, f)
@@ -308,6 +309,9 @@ def r4(cx, rec):
         if has and has[0] == 'Some':
             kinds = [kind for kind, idx, bb, ish in ev if rec_path(F) in idx]
             rec.site(Hc, p[-1], 'assigned, element %s -> %s' % (elem, kinds))
+            rec.need(bool(kinds), 'choke-without-release', Hc, p[-1],
+                     'a choke from a peer with an assigned piece can be handled without touching that piece\'s status (a further condition '
+                     'skips the release): the reservation stays although the peer will not serve it')
             if elem and elem[0] == 'Reserved':
                 rec.need(kinds and kinds[0] in ('dec', 'missing'), 'choke-without-release', Hc, p[-1], 'a choke does not release the reservation (element Reserved -> %s)' % kinds)
             elif elem:
